@@ -176,12 +176,13 @@ func init() {
 	}
 	reg(progSpec{Prop: "C01", Profiles: []string{"core"}, QuickN: 1500, ThoroughN: 40000, FaultPct: 10, Layouts: one,
 		Must: func(th bool) []*Program {
-			return append(append(constWindows(th), EnumIteratorShapes()...), EnumUninitLocalShapes()...)
+			ms := append(append(constWindows(th), EnumIteratorShapes()...), EnumUninitLocalShapes()...)
+			return append(append(ms, EnumCtorFlushShapes(th)...), EnumCoerceBlankShapes(th)...)
 		},
 		Enums: func() []*Program {
 			return append(EnumAssignShapes(3, 3), EnumCondShapes(3)...)
 		},
-		Rule: "typed random programs of profile `core` (all operators/nestings, coercions, logical operators in every context, table constructors, multiple assignment, all loop kinds, break, goto) + bounded-exhaustive assignment shapes (k,m ≤ 3 over storage classes) and condition trees (depth ≤ 3 × contexts) + uninitialised local declarations re-executed by every loop kind at every function-start position + user-written iterators (control values of every type, stateless/closure/callable, break, nesting, arity) + constant-pool windows (one block with a constant in every operand position behind n filler constants, n sweeping the 256/512(/768/1024/2048) operand boundaries) + corpus; each run on the real interpreter and judged by the Lean reference semantics (emit trace, chunk results, failure line); distinct = distinct normalised AST skeletons"})
+		Rule: "typed random programs of profile `core` (all operators/nestings, coercions, logical operators in every context, table constructors, multiple assignment, all loop kinds, break, goto) + bounded-exhaustive assignment shapes (k,m ≤ 3 over storage classes) and condition trees (depth ≤ 3 × contexts) + uninitialised local declarations re-executed by every loop kind at every function-start position + user-written iterators (control values of every type, stateless/closure/callable, break, nesting, arity) + constant-pool windows (one block with a constant in every operand position behind n filler constants, n sweeping the 256/512(/768/1024/2048) operand boundaries) + table constructors with 0…250(…550) positional items around every SETLIST flush boundary (50·k−1, 50·k, 50·k+1) × every kind of last item (none, single value, calls returning 0/1/3 values, `...` holding 3/0/1 values, method call, parenthesised call/`...`, open expression followed by an item or a named field) × interleaved named fields and explicit integer keys, observing #t, select('#', tail) and every element + string→number coercion (arithmetic, unary minus, tonumber; ==, <, <=, indexing, `..` as controls; numeric for) on a numeral with every byte 0…255 before/behind/around/inside it, the UTF-8 encodings of all Unicode White_Space code points and look-alikes, lone continuation bytes, NUL, and the six blanks of C isspace (the only bytes accepted), caught (values) and uncaught (failure line) + corpus; each run on the real interpreter and judged by the Lean reference semantics (emit trace, chunk results, failure line); distinct = distinct normalised AST skeletons"})
 	reg(progSpec{Prop: "C02", Profiles: []string{"calls"}, QuickN: 1200, ThoroughN: 30000, FaultPct: 5, Layouts: one,
 		Must: func(th bool) []*Program { return append(constWindows(th), EnumLibraryCallerShapes()...) },
 		Enums: EnumCallShapes,
@@ -192,8 +193,14 @@ func init() {
 		}, WrapEnums: true,
 		Rule: "profile `closures` (capture × exit path × register reuse; shared upvalues; setfenv/getfenv) + exhaustive closure exit shapes + register-0 loop shapes + nested-close shapes (captured block ending in a capturing nested block, taken/skipped/left early) + corpus; oracle = Lean reference semantics"})
 	reg(progSpec{Prop: "C04", Profiles: []string{"meta"}, QuickN: 1000, ThoroughN: 25000, FaultPct: 10, Layouts: one,
-		Must: func(bool) []*Program { return EnumInheritedHandlerShapes() },
-		Rule: "profile `meta` (metatables with every subset of events, chains, operand type pairs, logging handlers) + 53 inherited-handler shapes (events reachable only through the metatable's own __index are not events) + corpus; oracle = Lean reference semantics (manual §2.8)"})
+		Must: func(th bool) []*Program {
+			n := 3
+			if th {
+				n = 4
+			}
+			return append(append(EnumInheritedHandlerShapes(), EnumHandlerHistoryShapes(n)...), EnumMethodCallShapes()...)
+		},
+		Rule: "profile `meta` (metatables with every subset of events, chains, operand type pairs, logging handlers) + 53 inherited-handler shapes (events reachable only through the metatable's own __index are not events) + handler-history shapes (every history of 3 (thorough: 4) steps over install-next / remove / other-metatable-and-back / no-metatable-and-back / unrelated-new-key on a metatable shared by two tables, written by field assignment / computed key / rawset / a constructor-built new metatable in all four rotations, every event triggered after every step) + method-call shapes (recv:name(…) = recv.name(recv, …) for string receivers behind every shape of the string metatable's __index path and table receivers behind __index chains of length 0..4, in expression / statement / argument / tail position) + corpus; oracle = Lean reference semantics (manual §2.8)"})
 	reg(progSpec{Prop: "C05", Profiles: []string{"errors"}, QuickN: 1200, ThoroughN: 30000, FaultPct: 60, Layouts: one,
 		Rule: "profile `errors` (pcall/xpcall/error with every value type and level, nested, runtime faults at random points, continuing after caught errors) + corpus; oracle = Lean reference semantics"})
 	reg(progSpec{Prop: "C06", Profiles: []string{"coroutines"}, QuickN: 1200, ThoroughN: 30000, FaultPct: 10, Layouts: one,
